@@ -29,6 +29,9 @@ const (
 	IdVoid              // initializer func(deps)
 	IdVoidErr           // initializer func(deps) error
 	IdPlainNoErr        // (S, nil) through a constructor without error return
+	IdResObj2           // result object with two fields of type S: (S, nil) and (S, "k1")
+	IdMultiNamed        // multi-return + Name: (S, "k1") and (A, nil)
+	IdMultiGroup        // multi-return + Group: members of (S, "g1") and (A, "g1")
 	NumIdForms
 )
 
@@ -83,6 +86,12 @@ func (w *World) Ctor(r int) (any, []godi.AddOption) {
 		return TabM[r][g.Variant], nil
 	case IdResObj:
 		return TabR[r][g.Variant], nil
+	case IdResObj2:
+		return TabB[r][g.Variant], nil
+	case IdMultiNamed:
+		return TabM[r][g.Variant], append(opts, godi.Name("k1"))
+	case IdMultiGroup:
+		return TabM[r][g.Variant], append(opts, godi.Group("g1"))
 	case IdVoid:
 		return TabV[r][g.Variant], nil
 	case IdVoidErr:
@@ -161,6 +170,12 @@ func (w *World) Identities(r int) []Ident {
 		return []Ident{{Type: r}, {Type: NS + r}}
 	case IdResObj:
 		return []Ident{{Type: r}, {Type: NS + r, Key: "k1"}}
+	case IdResObj2:
+		return []Ident{{Type: r}, {Type: r, Key: "k1"}}
+	case IdMultiNamed:
+		return []Ident{{Type: r, Key: "k1"}, {Type: NS + r}}
+	case IdMultiGroup:
+		return []Ident{{Type: r, Group: "g1"}, {Type: NS + r, Group: "g1"}}
 	}
 	return nil // initializers have no resolvable identity
 }
